@@ -841,6 +841,13 @@ impl<TokenIter: Iterator<Item = Result<Token>>> Parser<TokenIter> {
     }
 
     fn transform_formals(args: Datum) -> Result<ParameterFormals> {
+        let formals = Self::transform_formals_unchecked(args)?;
+        // every parameter has to be an identifier: a nested list is an illegal parameter
+        formals.clone().split()?;
+        Ok(formals)
+    }
+
+    fn transform_formals_unchecked(args: Datum) -> Result<ParameterFormals> {
         let location = args.location;
         Ok(match args {
             Datum {
